@@ -183,6 +183,13 @@ impl Scenario for TxSim {
                         // C18 (needs the parsed packet; computed below) -- keep prev
                         let em = Emitted { call: Call::Encap, pdu: &pdu, ptype, label: lab, fid, exts: &[], ctx: None, before: &before, after: &buf, res: &res };
                         let (v6, parsed) = mon::check_c06(&em);
+                        let v6 = match v6 {
+                            Some(v) if v.clause == "C06.wrote_beyond_reported_length" => {
+                                report!(v);
+                                None
+                            }
+                            other => other,
+                        };
                         st.inc(mon::c18_cell(Call::Encap, &prev, &res, parsed.as_ref(), sub_possible));
                         if let Some(v) = mon::check_c18(Call::Encap, &prev, &res, parsed.as_ref(), sub_possible, ptype, buf_len, len) {
                             report!(v);
@@ -214,6 +221,13 @@ impl Scenario for TxSim {
                         let res = tx_encap_ext(&mut enc, &pdu, fid, ptype, &lab, &mut buf, ex);
                         let em = Emitted { call: Call::EncapExt, pdu: &pdu, ptype, label: lab, fid, exts: &exts, ctx: None, before: &before, after: &buf, res: &res };
                         let (v6, parsed_x) = mon::check_c06(&em);
+                        let v6 = match v6 {
+                            Some(v) if v.clause == "C06.wrote_beyond_reported_length" => {
+                                report!(v);
+                                None
+                            }
+                            other => other,
+                        };
                         if v6.is_none() {
                             if let Some(pp) = parsed_x.as_ref() {
                                 if let Some(v) = mon::check_c11_first(&res, pp, fid, buf_len, true, &pdu, &buf) {
@@ -333,6 +347,13 @@ impl Scenario for TxSim {
                     }
                     let em = Emitted { call: Call::EncapFrag, pdu: &pdu, ptype: 0, label: Lab::ReUse, fid: ctx.frag_id(), exts: &[], ctx: Some(ctx), before: &before, after: &buf, res: &res };
                     let (v6, parsed) = if pos <= pdu.len() { mon::check_c06(&em) } else { (None, None) };
+                    let v6 = match v6 {
+                        Some(v) if v.clause == "C06.wrote_beyond_reported_length" => {
+                            report!(v);
+                            None
+                        }
+                        other => other,
+                    };
                     st.inc(mon::c18_cell(Call::EncapFrag, &prev, &res, parsed.as_ref(), false));
                     if let Some(v) = mon::check_c18(Call::EncapFrag, &prev, &res, parsed.as_ref(), false, 0x0800, buf_len, pdu.len()) {
                         report!(v);
